@@ -11,7 +11,7 @@ from collections import OrderedDict
 
 PROP = 'C15'
 LEAN_MODULES = ['Glom.Props.C15']
-FACT_FILES = ['RedFacts', 'ExcFacts', 'C13Facts', 'c13', 'c15']
+FACT_FILES = ['RedFacts', 'ExcFacts', 'C13Facts', 'c15']
 READY = True
 MANIFEST = dict(
     text="Lean 4 theorems about a heap model (objects with addresses) of glom/reduction.py and grouping.target_iter: for "
@@ -27,9 +27,10 @@ MANIFEST = dict(
          "init; Merge = successive update, last writer wins (first writer with first_wins); no pre-existing object "
          "changes (frame), every container result is a newly allocated object distinct from all inputs and earlier "
          "results (fresh), later evaluations leave earlier results untouched; a target without an `iterate` handler "
-         "is a FoldError (a GlomError), a raising handler a TypeError, a failing sub-spec comes first.  The target's "
+         "is a FoldError (a GlomError) - and only that: an exception raised inside the loop, UnregisteredTarget "
+         "included, propagates -, a raising handler a TypeError, a failing sub-spec comes first, a refused constructor evaluates nothing.  The target's "
          "iteration is the handler registered AT THE TIME OF THE CALL: for every class hierarchy, registry and "
-         "interleaving of evaluations with register(cls, iterate=..., exact=...) calls, the code that exists "
+         "interleaving of evaluations with register(cls, iterate=..., exact=...) calls and non-raising lookups, the code that exists "
          "(get_handler with its memo, shared registry model of C13) shows, evaluation by evaluation, the reference "
          "reduction over the memo-free answer of the tables of that moment.  Per-run facts obligation by `decide` on "
          "tables regenerated from /repo (default iterate answers of the registry built from the extracted "
@@ -50,41 +51,67 @@ MANIFEST = dict(
               '+ memo-invisibility over registration histories (shared registry model) + pull-machine = reference for '
               'lazy chains (well-founded) + facts obligation by decide + differential correspondence',
     ref='DESIGN.md §3 C15')
-RULE = ('type-directed: a prog (Fold/Sum/Count/Flatten eager+lazy/Merge/flatten(levels 0-4)/merge(), init in '
-        '{int,float,str,list,tuple,dict,OrderedDict,custom Acc(list) with __iadd__/update, a copying factory over a heap '
-        'object, omitted}, op in {iadd,add,append,cons,update,first_wins,omitted}) is drawn first, then targets whose '
+RULE = ('type-directed: a prog (Fold/Sum/Count/Flatten eager+lazy/Merge/flatten(levels 0-10, also None / float / bool / '
+        'an unexpected keyword)/merge(), init in {int,float,str,list,tuple,dict,OrderedDict,set,custom Acc(list) with '
+        '__iadd__/update, a copying factory over a heap object, not callable, omitted}, op in {iadd,add,append,cons,'
+        'list.extend,{**a,**b},an op raising UnregisteredTarget for non-sequences,update/extend/append/unknown method '
+        'names,first_wins,an op WRITING TO ITS ELEMENT,not callable,omitted}) is drawn first, then targets whose '
         'element types fit it (ints/bools/floats incl. inf, nan, 1e16 and -0.0, strs, lists, tuples, dicts, nested to '
-        'the flatten depth; containers list/tuple/dict/OrderedDict/generator/Acc; shared and self-containing '
-        'sub-objects), optionally behind a T[...] sub-spec; 1-3 evaluations of the SAME spec object on the same or '
-        'different targets; 30 % of the cases are registration histories: targets are instances of harness classes '
-        '(Box/SubBox/SubSubBox iterable via __iter__, Bag/SubBag(list), Crate(Obj) not iterable) and 1-3 '
-        'register(cls, iterate=h, exact=e) calls (cls: class of a target / a class above or below it / a builtin / '
-        'object, _AbstractIterable; h in {reverse, tail, items-attribute, list, iter, raising, False, omitted}) are '
-        'placed before / between the evaluations, the same object evaluated again afterwards, on the module registry '
-        '(a deep copy swapped in per case) or a Glommer; 6 % are pull cases (lazy Flatten / flatten(levels=k, '
-        "init='lazy') over a counting generator, next() until StopIteration / TypeError); a one-edit mutation stream "
-        'plants a non-iterable / wrong-typed / wrong-arity element at a random position, a non-iterable target (int, '
-        'str, None, object), a mismatched init, a missing sub-spec key, negative levels; a small stream uses a '
-        'non-allocating init (hypothesis violated on purpose: model and implementation must still agree). thorough '
-        'additionally enumerates every prog shape over 36 fixed targets and every (instance class, registered class, '
-        'handler, exact, position, registry) over three progs. non-trivial = some evaluation iterates >= 2 items or '
-        'ends in an exception (pull: >= 2 pulls); distinct = distinct (heap, events, registry, prog).')
-TRUSTED = ['CPython semantics of +=, +, dict.update/OrderedDict.update, iter(), itertools.chain and of the harness\'s '
-           'iterate handlers as modelled in Glom/Model/C15.lean (pyOp, rawIter, runHandler, updatePairs) and '
-           'Glom/Model/C15Lazy.lean (refill/next): validated by the correspondence, not verified',
+        'the flatten depth; containers list/tuple/dict/OrderedDict/generator/Acc, 5 % sets/frozensets of small ints '
+        'and ranges, 4 % with 20-50 items; 12 % of the generators RAISE (UnregisteredTarget / ValueError) after some '
+        'of their items; shared and self-containing sub-objects), optionally behind a T[...] sub-spec; 1-3 '
+        'evaluations of the SAME spec object on the same or different targets; 30 % of the cases are registration '
+        'histories: targets are instances of harness classes (Box/SubBox/SubSubBox iterable via __iter__, '
+        'Bag/SubBag(list), Crate(Obj) not iterable) and 1-3 register(cls, iterate=h, exact=e) calls (cls: class of a '
+        'target / a class above or below it / a builtin / object, _AbstractIterable; h in {reverse, tail, '
+        'items-attribute, list, iter, raising, False, omitted}) and non-raising lookups get_handler(..., '
+        'raise_exc=False) are placed before / between the evaluations, the same object evaluated again afterwards, on '
+        'the module registry (a deep copy swapped in per case) or a Glommer; 6 % are pull cases (lazy Flatten / '
+        "flatten(levels=k, init='lazy') over a counting generator, next() until StopIteration / TypeError); a "
+        'one-edit mutation stream plants a non-iterable / wrong-typed / wrong-arity element (objects whose __iter__ '
+        'raises / returns a non-iterator / that iterate through __getitem__ only) at a random position, a '
+        'non-iterable target (int, float, str, None, plain object, those three), a mismatched init, a missing '
+        'sub-spec key, negative levels; a small stream violates a hypothesis on purpose (init returning a shared '
+        'object, the element-writing op, chain objects served by another handler: model and implementation must '
+        'still agree; counted under hyp-violated(...) branches). thorough additionally enumerates every prog shape '
+        'over 36 fixed targets and every (instance class, registered class, handler, exact, position, registry) over '
+        'three progs. No case is skipped. non-trivial = some evaluation iterates >= 2 items or ends in an exception '
+        '(pull: >= 2 pulls); distinct = distinct (heap, events, registry, prog).')
+TRUSTED = ['CPython semantics of +=, +, dict.update/OrderedDict.update, list.extend/append, iter(), itertools.chain and '
+           'of the harness\'s iterate handlers and operators as modelled in Glom/Model/C15.lean (pyOp, rawIter, '
+           'runHandler, updatePairs) and Glom/Model/C15Lazy.lean (refill/next): validated by the correspondence, not verified',
            'the class hierarchy tables of a case (__mro__, isinstance, issubclass, auto-discovery outcomes) are '
-           'computed by Python introspection in the harness (as in C13)',
+           'computed by Python introspection in the harness (as in C13): which classes glom takes for iterable comes '
+           'from glom\'s own _AbstractIterable hook and auto-discovery function',
            'Lean core\'s Float model (Float.ofBits/add/toBits reduce in the kernel) is IEEE-754 binary64 addition',
-           'generators are modelled as immutable sequences; each generator object is consumed at most once per case']
-ASSUMPTIONS = ['floats are compared exactly (bit patterns): glom adds left to right with one IEEE-754 addition per '
-               'step, i.e. functools.reduce(operator.add), NOT the compensated builtin sum() of CPython >= 3.12 '
-               '(DESIGN 6.5, narrowed); ints mixed into float sums are below 2**53',
-               'hypothesis "init allocates": an init callable returning a pre-existing object is outside the '
-               'frame/freshness claims (c15_shared_init_counterexample)',
+           'a generator is modelled as the sequence of what it will yield (a raise as a pseudo-item); each generator '
+           'object is evaluated at most once per case']
+ASSUMPTIONS = ['READING (6.5, replaces "floats excluded"): floats are compared exactly (bit patterns): glom adds left to '
+               'right with one IEEE-754 addition per step, i.e. functools.reduce(operator.add), NOT the compensated '
+               'builtin sum() of CPython >= 3.12 (glom([0.1]*10, Sum()) is 0.9999999999999999, sum() gives 1.0); ints '
+               'mixed into float sums are below 2**53',
+               'READING (b): "Flatten equals chain.from_iterable" is about init=list (the one init whose += takes any '
+               'iterable); for any other init the reference is the `ret = iadd(ret, v)` loop itself: '
+               'Flatten(init=tuple) over lists, Flatten(init=set) and flatten(levels=2) over ints raise TypeError, '
+               'flatten(levels=2, init=int) sums',
+               'READING (d): "non-iterable target" = the registry names no iterate handler for its class (no __iter__, or '
+               'str/bytes): FoldError, also for an object iterable through __getitem__ only; a class whose __iter__ '
+               'raises or returns a non-iterator IS registered and fails inside target_iter: TypeError; an exception '
+               '(UnregisteredTarget included) raised by the iterator, op or init while folding is not the target\'s '
+               'and propagates unchanged (6be71d7)',
+               'READING (e): "results of separate evaluations share no state" is about the result containers (distinct, '
+               'new objects); the copy is shallow: the elements are the input\'s own objects (c15_result_shallow); '
+               'immutable results (str, tuple, int) may be the input object itself',
+               'hypotheses "init allocates" and "op writes to its accumulator only": an init callable returning a '
+               'pre-existing object, an op mutating its element, are the caller\'s aliasing / mutation '
+               '(c15_shared_init_counterexample, c15_element_writing_op_counterexample)',
                'which registered type is nearest for an unregistered class is C13\'s property; C15 requires that the '
-               'answer is that of the tables at the time of the call (no memo); dict keys are scalars',
+               'answer is that of the tables at the time of the call (no memo, a remembered False included); dict keys '
+               'are scalars; set elements are small ints (iteration order ascending)',
                'flatten(levels >= 2) on a registry where itertools.chain objects are served by a handler other than '
-               'iter is outside the reference (the driver evaluates the model only)',
+               'iter is outside the reference (model and implementation are still compared)',
+               'not modelled: the same generator object evaluated twice (the second evaluation sees the exhausted '
+               'iterator), bytes / memoryview / deque / dict-view targets, Counter / set inits of Merge, tuple dict keys',
                'identity of immutable results (tuple, str, int) is not observed: CPython returns `t` itself for `() + t`']
 
 
@@ -133,8 +160,49 @@ class SubBag(Bag):
     pass
 
 
-INST_CLASSES = {'Obj': Obj, 'Crate': Crate, 'Box': Box, 'SubBox': SubBox, 'SubSubBox': SubSubBox}
-POOL = {'Obj': Obj, 'Crate': Crate, 'Box': Box, 'SubBox': SubBox, 'SubSubBox': SubSubBox, 'Bag': Bag,
+class BadIter:
+    """has an __iter__ — so glom registers it as iterable — that raises"""
+    def __iter__(self):
+        raise TypeError('BadIter does not iterate')
+
+
+class NonIterIter:
+    """an __iter__ that returns something that is not an iterator"""
+    def __iter__(self):
+        return 5
+
+
+class GetItemSeq:
+    """no __iter__: iterable for Python through the sequence protocol only (and empty)"""
+    def __getitem__(self, i):
+        raise IndexError(i)
+
+
+class Marker:
+    """`!raise:<Class>` inside a generator cell: at this point the generator raises"""
+    def __init__(self, name):
+        self.name = name
+
+
+def raise_marker(m):
+    from glom.core import UnregisteredTarget, Path
+    cls = m.name[len('!raise:'):]
+    if cls == 'UnregisteredTarget':
+        raise UnregisteredTarget('iterate', int, {}, Path())
+    raise {'ValueError': ValueError, 'TypeError': TypeError, 'KeyError': KeyError}[cls]('raised midway')
+
+
+def raising_generator(items):
+    for x in items:
+        if isinstance(x, Marker):
+            raise_marker(x)
+        yield x
+
+
+INST_CLASSES = {'Obj': Obj, 'Crate': Crate, 'Box': Box, 'SubBox': SubBox, 'SubSubBox': SubSubBox,
+                'BadIter': BadIter, 'NonIterIter': NonIterIter, 'GetItemSeq': GetItemSeq}
+POOL = {'Obj': Obj, 'Crate': Crate, 'Box': Box, 'SubBox': SubBox, 'SubSubBox': SubSubBox,
+        'BadIter': BadIter, 'NonIterIter': NonIterIter, 'GetItemSeq': GetItemSeq, 'Bag': Bag,
         'SubBag': SubBag, 'Acc': Acc}
 
 
@@ -212,6 +280,8 @@ def decode(heap):
             if objs[a] is None:
                 build(a)
             return objs[a]
+        if 'sent' in j and j['sent'].startswith('!raise:'):
+            return Marker(j['sent'])
         raise ValueError('cannot decode %r' % (j,))
 
     def build(a):
@@ -222,9 +292,17 @@ def decode(heap):
         state[a] = 'building'
         if k == 'tuple' and c == 'generator':
             items = [dv(x) for x in cell['v']]
-            objs[a] = (x for x in items)
+            objs[a] = raising_generator(items)
+        elif k == 'tuple' and c == 'range':
+            assert [x.get('i') for x in cell['v']] == list(range(len(cell['v']))), 'a range cell lists 0..n-1'
+            objs[a] = range(len(cell['v']))
         elif k == 'tuple':
             objs[a] = tuple(dv(x) for x in cell['v'])
+        elif k == 'set':
+            vals = [dv(x) for x in cell['v']]
+            assert vals == sorted(set(vals)) and all(type(x) is int and 0 <= x < 8 for x in vals), \
+                'a set cell lists distinct ints of 0..7 in ascending order (their iteration order)'
+            objs[a] = (set if c == 'set' else frozenset)(vals)
         state[a] = 'done'
 
     for a, cell in enumerate(heap):
@@ -236,7 +314,7 @@ def decode(heap):
         elif k == 'inst':
             objs[a] = INST_CLASSES[c]()
     for a, cell in enumerate(heap):
-        if cell['k'] == 'tuple' and objs[a] is None:
+        if cell['k'] in ('tuple', 'set') and objs[a] is None:
             build(a)
     for a, cell in enumerate(heap):
         k = cell['k']
@@ -274,6 +352,10 @@ def enc_cell(o, ids, orig=None):
         return {'k': 'list', 'c': t.__name__, 'v': [enc_val(x, ids) for x in list.__iter__(o)]}
     if t is tuple:
         return {'k': 'tuple', 'c': 'tuple', 'v': [enc_val(x, ids) for x in o]}
+    if t is range:
+        return {'k': 'tuple', 'c': 'range', 'v': [enc_val(x, ids) for x in o]}
+    if t in (set, frozenset):
+        return {'k': 'set', 'c': t.__name__, 'v': [enc_val(x, ids) for x in sorted(o)]}
     if t in (dict, OrderedDict):
         return {'k': 'dict', 'c': t.__name__, 'v': [[enc_val(k, ids), enc_val(x, ids)] for k, x in o.items()]}
     if t in INST_CLASSES.values():
@@ -294,7 +376,7 @@ def build_init(j, dv):
         obj = dv(j['shared'])
         return lambda: obj
     return {'int': int, 'float': float, 'str': str, 'list': list, 'tuple': tuple, 'dict': dict,
-            'OrderedDict': OrderedDict, 'Acc': Acc, 'lazy': 'lazy'}[j]
+            'OrderedDict': OrderedDict, 'Acc': Acc, 'set': set, 'lazy': 'lazy', '!bad': 'LAZY'}[j]
 
 
 def op_append(a, v):
@@ -304,6 +386,28 @@ def op_append(a, v):
 
 def op_cons(a, v):
     return [v] + a
+
+
+def op_add_seq(a, v):
+    """an operator that iterates its element the glom way: UnregisteredTarget for what is not a sequence"""
+    from glom.core import UnregisteredTarget, Path
+    if not isinstance(v, (list, tuple)):
+        raise UnregisteredTarget('iterate', type(v), {}, Path())
+    return a + list(v)
+
+
+def op_poke(a, v):
+    """an operator OUTSIDE the laws: it writes to its element"""
+    v.append(0)
+    return a
+
+
+def op_dict_union(a, b):
+    return {**a, **b}
+
+
+FOLD_OPS = {'append': op_append, 'cons': op_cons, 'extend': list.extend, 'dict_union': op_dict_union,
+            'add_seq': op_add_seq, 'poke': op_poke, '!bad': 5}
 
 
 def build_sub(sub, dv):
@@ -329,7 +433,7 @@ def make_callable(prog, dv, glommer=None):
     op = prog.get('op')
     if kind == 'fold':
         if op is not None:
-            kw['op'] = {'iadd': operator.iadd, 'add': operator.add, 'append': op_append, 'cons': op_cons}[op]
+            kw['op'] = dict(FOLD_OPS, iadd=operator.iadd, add=operator.add)[op]
         spec = Fold(sub, **kw)
     elif kind == 'sum':
         spec = Sum(sub, **kw)
@@ -339,14 +443,20 @@ def make_callable(prog, dv, glommer=None):
         spec = Flatten(sub, **kw)
     elif kind in ('merge', 'merge_fn'):
         if op is not None:
-            kw['op'] = {'iadd': operator.iadd, 'first_wins': first_wins}.get(op, op)
+            kw['op'] = {'iadd': operator.iadd, 'first_wins': first_wins, 'dict_union': op_dict_union,
+                        '!bad': 5}.get(op, op)
+        if prog.get('extra_kw'):
+            kw['foo'] = 1
         if kind == 'merge':
             spec = Merge(sub, **kw)
         else:
             return lambda t: merge(t, spec=sub, **kw)
     elif kind == 'flatten_fn':
-        if prog.get('levels') is not None:
-            kw['levels'] = prog['levels']
+        lv = prog.get('levels')
+        if lv is not None:
+            kw['levels'] = None if lv == 'None' else dv(lv) if isinstance(lv, dict) else lv
+        if prog.get('extra_kw'):
+            kw['foo'] = 1
         return lambda t: flatten(t, spec=sub, **kw)
     else:
         raise ValueError(kind)
@@ -393,7 +503,7 @@ def hier_tables():
     if key in _HIER:
         return _HIER[key]
     base = [object, dict, OrderedDict, list, tuple, set, frozenset, str, bytes, int, bool, float, type(None),
-            core._AbstractIterable, core._ObjStyleKeys, types.GeneratorType, itertools.chain]
+            core._AbstractIterable, core._ObjStyleKeys, types.GeneratorType, itertools.chain, range]
     base += list(POOL.values())
     classes = []
     for c in base:
@@ -443,9 +553,23 @@ def class_of(name):
     if name in POOL:
         return POOL[name]
     return {'object': object, 'dict': dict, 'OrderedDict': OrderedDict, 'list': list, 'tuple': tuple,
-            'set': set, 'frozenset': frozenset, 'str': str, 'int': int, 'float': float,
+            'set': set, 'frozenset': frozenset, 'str': str, 'int': int, 'float': float, 'NoneType': type(None),
             '_AbstractIterable': core._AbstractIterable, 'generator': types.GeneratorType,
-            'chain': itertools.chain}[name]
+            'chain': itertools.chain, 'range': range}[name]
+
+
+def instance_of(name):
+    """some object whose type is the class of that name"""
+    c = class_of(name)
+    if c is type(None):
+        return None
+    if c is types.GeneratorType:
+        return (x for x in ())
+    if c is range:
+        return range(0)
+    x = c()
+    assert type(x) is c
+    return x
 
 
 def run_pull(case):
@@ -527,6 +651,11 @@ def run_impl(case):
                         raw.append(('ok', f(dv(ev['t']))))
                     except Exception as e:
                         raw.append(('err', e))
+                elif 'probe' in ev:
+                    # a lookup that does not raise (and remembers a False): what glom itself does when it
+                    # only wants to know whether a type is supported
+                    reg = glommer.scope[core.TargetRegistry] if glommer is not None else mine
+                    reg.get_handler('iterate', instance_of(ev['probe']), raise_exc=False)
                 else:
                     r = ev['reg']
                     kw = {op: (HANDLERS[h] if h is not None else False) for op, h in r['kw']}
@@ -650,20 +779,38 @@ def container(hp, kind, items):
 
 
 TOP_KINDS = ['list', 'list', 'list', 'tuple', 'generator', 'Acc']
-NON_ITER = [{'i': 5}, {'s': 'abc'}, None, {'b': True}, 'obj']
+NON_ITER = [{'i': 5}, {'s': 'abc'}, None, {'b': True}, {'f': '3ff8000000000000'}, 'obj', 'BadIter', 'NonIterIter',
+            'GetItemSeq']
 INITS = ['int', 'float', 'str', 'list', 'tuple', 'dict', 'OrderedDict', 'Acc']
+
+
+LONG_SHARE = 0.04
 
 
 def gen_target(rng, hp, elem, n=None, top=None):
     """elem(rng, hp) -> one element value; returns a container of such elements"""
-    n = rng.choice([0, 1, 2, 2, 3, 3, 4, 5]) if n is None else n
+    if n is None:
+        n = rng.choice([0, 1, 2, 2, 3, 3, 4, 5]) if rng.random() >= LONG_SHARE else rng.randint(20, 50)
     items = [elem(rng, hp) for _ in range(n)]
     if len(items) >= 2 and rng.random() < 0.1:
         items[rng.randrange(len(items))] = rng.choice(items)       # shared element
     kind = top or rng.choice(TOP_KINDS)
     if kind in ('dict', 'OrderedDict') and any(isinstance(i, dict) and 'r' in i for i in items):
         kind = 'list'
-    return container(hp, kind, items)
+    if top is None and rng.random() < 0.05:
+        # a set / frozenset of small ints (iteration order = ascending) or a range: iterable through
+        # `_AbstractIterable` like any other
+        if rng.random() < 0.6:
+            vals = sorted(rng.sample(range(8), rng.choice([0, 1, 2, 3, 5])))
+            return hp.alloc('set', rng.choice(['set', 'frozenset']), [{'i': v} for v in vals])
+        return hp.alloc('tuple', 'range', [{'i': v} for v in range(rng.choice([0, 1, 3, 5, 30]))])
+    t = container(hp, kind, items)
+    if kind == 'generator' and rng.random() < 0.12:
+        # a generator that RAISES after some of its items (as glom(t, Iter([T])) does at a non-iterable one)
+        cell = hp.heap[t['r']]
+        cell['v'].insert(rng.randint(0, len(cell['v'])),
+                         {'sent': '!raise:' + rng.choice(['UnregisteredTarget', 'UnregisteredTarget', 'ValueError'])})
+    return t
 
 
 def elem_for(fam, depth=0):
@@ -698,6 +845,8 @@ def bad_element(rng, hp):
         return jval(rng.choice([5, None, True]))
     if c < 0.45:
         return jval(rng.choice(['ab', 'abc', '']))
+    if c < 0.52:
+        return hp.alloc('inst', rng.choice(['BadIter', 'NonIterIter', 'GetItemSeq']), [])
     if c < 0.6:
         return hp.alloc('inst', 'Obj', [['x', {'i': 1}]])
     if c < 0.75:
@@ -713,7 +862,7 @@ def gen_prog(rng):
     prog = {'kind': kind, 'sub': []}
     if kind == 'fold':
         prog['init'] = rng.choice(INITS)
-        prog['op'] = rng.choice([None, None, 'iadd', 'add', 'append', 'cons'])
+        prog['op'] = rng.choice([None, None, 'iadd', 'add', 'append', 'cons', 'add_seq', 'extend', 'dict_union'])
         fam = FAM_OF_INIT[prog['init']]
         if prog['op'] == 'add' and prog['init'] in ('list', 'Acc'):
             fam = 'list'
@@ -723,22 +872,48 @@ def gen_prog(rng):
             if rng.random() < 0.8:
                 prog['init'] = rng.choice(['list', 'list', 'Acc'])
             fam = rng.choice(['any', 'seq', 'num'])
+        if prog['op'] in ('add_seq', 'extend'):
+            if rng.random() < 0.85:
+                prog['init'] = rng.choice(['list', 'list', 'Acc'])
+            fam = rng.choice(['seq', 'seq', 'list', 'any'])      # 'any': ints among the elements: the op raises
+        if prog['op'] == 'dict_union':
+            if rng.random() < 0.85:
+                prog['init'] = rng.choice(['dict', 'OrderedDict'])
+            fam = 'dict'
+        c = rng.random()
+        if c < 0.03:                 # an operator outside the laws: it writes to its element
+            prog['op'], prog['init'], fam = 'poke', rng.choice(['list', 'int', 'Acc']), rng.choice(['list', 'seq'])
+        elif c < 0.05:
+            prog['op'] = '!bad'      # Fold(T, init=…, op=5)
+        elif c < 0.07:
+            prog['init'] = '!bad'    # Fold(T, init='LAZY')
+        elif c < 0.09:
+            prog['init'] = 'set'     # nothing of the catalogue adds to a set
         if fam == 'int' and rng.random() < 0.4:
             fam = 'num'
     elif kind == 'sum':
-        prog['init'] = rng.choice([None, None, 'int', 'int', 'float', 'str', 'list', 'tuple', 'Acc'])
-        fam = FAM_OF_INIT[prog['init'] or 'int']
+        prog['init'] = rng.choice([None, None, 'int', 'int', 'float', 'str', 'list', 'tuple', 'Acc', 'set', '!bad'])
+        fam = FAM_OF_INIT.get(prog['init'] or 'int', 'seq')
         if fam == 'int' and rng.random() < 0.5:
             fam = 'num'              # an int start with float addends: the sum turns float at the first one
     elif kind == 'count':
         fam = rng.choice(['int', 'any', 'list', 'dict'])
     elif kind == 'flatten':
-        prog['init'] = rng.choice([None, None, 'list', 'lazy', 'lazy', 'tuple', 'int', 'str', 'Acc'])
-        fam = FAM_OF_INIT[prog['init']] if prog['init'] not in (None, 'lazy') else 'seq'
+        prog['init'] = rng.choice([None, None, 'list', 'lazy', 'lazy', 'tuple', 'int', 'str', 'Acc', 'set', '!bad'])
+        fam = FAM_OF_INIT.get(prog['init'], 'seq') if prog['init'] not in (None, 'lazy') else 'seq'
     elif kind in ('merge', 'merge_fn'):
-        prog['init'] = rng.choice([None, None, 'dict', 'OrderedDict', 'OrderedDict', 'Acc', 'list', 'int'])
-        prog['op'] = rng.choice([None, None, None, 'update', 'first_wins', 'iadd'])
+        prog['init'] = rng.choice([None, None, 'dict', 'OrderedDict', 'OrderedDict', 'Acc', 'list', 'int', '!bad'])
+        prog['op'] = rng.choice([None, None, None, 'update', 'first_wins', 'iadd', 'dict_union', 'extend', 'append',
+                                 'nosuch', '!bad'])
         fam = rng.choice(['dict', 'dict', 'dict', 'pairs'])
+        if prog['op'] in ('extend', 'append'):
+            if rng.random() < 0.8:
+                prog['init'] = rng.choice(['list', 'Acc'])
+            fam = rng.choice(['seq', 'any'])
+        if prog['op'] == 'dict_union':
+            fam = 'dict'
+        if kind == 'merge_fn' and rng.random() < 0.04:
+            prog['extra_kw'] = True
         if prog['op'] == 'first_wins':
             fam = 'dict'
         if prog['op'] == 'iadd':
@@ -746,8 +921,14 @@ def gen_prog(rng):
             if prog['init'] in (None, 'dict', 'OrderedDict'):
                 fam = 'dict'
     else:  # flatten_fn
-        prog['levels'] = rng.choice([None, 0, 1, 1, 2, 2, 3, 3, 4])
-        prog['init'] = rng.choice([None, None, 'list', 'list', 'lazy', 'tuple', 'int', 'float', 'str', 'Acc'])
+        prog['levels'] = rng.choice([None, 0, 1, 1, 2, 2, 3, 3, 4, rng.choice([5, 6, 7, 8, 9, 10])])
+        prog['init'] = rng.choice([None, None, 'list', 'list', 'lazy', 'tuple', 'int', 'float', 'str', 'Acc', '!bad'])
+        c = rng.random()
+        if c < 0.05:                 # levels that are not ints: decided by `== 0`, `< 0`, `(…,) * (levels - 1)`
+            prog['levels'] = rng.choice(['None', {'b': True}, {'b': False}, {'f': fbits(1.5)}, {'f': fbits(2.0)},
+                                         {'f': fbits(0.0)}, {'f': fbits(-1.5)}, {'f': fbits(float('nan'))}])
+        elif c < 0.08:
+            prog['extra_kw'] = True
         fam = 'nested'
     return prog, fam
 
@@ -767,14 +948,14 @@ def gen_case(rng, tier, kinds=None, regs=None):
 
     def fresh_target():
         if fam == 'nested':
-            lv = prog['levels'] if prog['levels'] is not None else 1
+            lv = prog['levels'] if isinstance(prog['levels'], int) else 1
             init = prog['init'] or 'list'
             if init in ('int', 'str', 'float'):
                 leaf = {'int': 'int', 'float': 'num', 'str': 'str'}[init]
                 return gen_seq_depth(rng, hp, leaf, max(lv - 1, 0))
             if init == 'tuple':
                 return gen_seq_depth(rng, hp, 'any', max(lv, 1), last='tuple')
-            if init == 'Acc':
+            if init in ('Acc', '!bad'):
                 return gen_seq_depth(rng, hp, 'any', max(lv - 1, 0))
             return gen_seq_depth(rng, hp, 'any', max(lv, 1))
         return gen_target(rng, hp, elem_for(fam))
@@ -793,13 +974,14 @@ def gen_case(rng, tier, kinds=None, regs=None):
         if mode > 0.72 and ti == 0:
             m = rng.random()
             cell = hp.heap[t['r']]
-            if m < 0.45 and cell['k'] in ('list', 'tuple') :
+            if m < 0.45 and cell['k'] in ('list', 'tuple') and cell['c'] != 'range':
                 pos = rng.randint(0, len(cell['v']))
                 cell['v'].insert(pos, bad_element(rng, hp))
             elif m < 0.7:
                 ni = rng.choice(NON_ITER)
-                t = hp.alloc('inst', 'Obj', [['a', {'i': 1}]]) if ni == 'obj' else ni
-            elif m < 0.8 and cell['k'] == 'list':
+                t = hp.alloc('inst', 'Obj', [['a', {'i': 1}]]) if ni == 'obj' else \
+                    hp.alloc('inst', ni, []) if isinstance(ni, str) else ni
+            elif m < 0.8 and cell['k'] == 'list' and prog.get('op') != 'poke':
                 cell['v'].append(t)                      # the target contains itself
             elif m < 0.9 and prog['kind'] in ('fold', 'sum', 'flatten', 'merge', 'merge_fn', 'flatten_fn'):
                 prog['init'] = rng.choice(INITS)
@@ -857,6 +1039,11 @@ def gen_case(rng, tier, kinds=None, regs=None):
         for _ in range(rng.choice([1, 1, 2, 3])):
             pos = rng.randint(0, len(events) - 1) if rng.random() < 0.9 else len(events)
             events.insert(pos, {'reg': gen_reg(rng, tclasses, prog)})
+        if rng.random() < 0.35:
+            # a lookup that does not raise, before some evaluation: a `False` it remembers must not show
+            for _ in range(rng.choice([1, 1, 2])):
+                cls = rng.choice((tclasses or ['list']) + ['int', 'NoneType', 'object', 'Crate', 'Obj', 'GetItemSeq'])
+                events.insert(rng.randint(0, len(events) - 1), {'probe': cls})
         if prog['kind'] not in ('flatten_fn', 'merge_fn') and rng.random() < 0.5:
             registry = 'glommer'
     elif prog['kind'] not in ('flatten_fn', 'merge_fn') and rng.random() < 0.1:
@@ -928,6 +1115,8 @@ def wrap_pool(rng, hp, t, other):
     if not (isinstance(t, dict) and 'r' in t):
         return t, None
     cell = hp.heap[t['r']]
+    if cell['k'] == 'inst':
+        return t, cell['c']           # `names` / `items` of a harness object are builtin containers
     c = rng.random()
     if c < 0.45:
         cls = rng.choice(['Box', 'Box', 'SubBox', 'SubSubBox'])
@@ -947,7 +1136,7 @@ def wrap_pool(rng, hp, t, other):
 
 def gen_seq_depth(rng, hp, leaf, depth, last=None):
     """exactly `depth` levels of sequences above the leaves (depth 0: a sequence of leaves)"""
-    n = rng.choice([0, 1, 2, 2, 3])
+    n = rng.choice([0, 1, 2, 2, 3]) if depth <= 4 else rng.choice([1, 1, 2])
     kinds = ('list', 'list', 'tuple', 'generator')
     if depth <= 0:
         kind = last or rng.choice(kinds)
@@ -1073,6 +1262,9 @@ def normalise(case, rng=None):
                 heap[a]['c'] = 'tuple'
         used |= g
         out.append(ev)
+    for cell in heap:
+        if cell['c'] != 'generator' and cell['k'] in ('list', 'tuple'):
+            cell['v'] = [x for x in cell['v'] if not (isinstance(x, dict) and 'sent' in x)]
     case.pop('targets', None)
     case['events'] = events = out
     case.setdefault('registry', 'module')
